@@ -1413,6 +1413,35 @@ def _strip_inline_comment(text: str) -> str:
     return text
 
 
+def _normalise_line(line: str) -> str:
+    """Return ``line`` with Python's canonical spacing.
+
+    The statement dispatch is regex based; normalising first makes it independent
+    of optional spaces (``led . toggle ( )``, ``range (3)``, ``target ( "COM3" )``).
+    """
+
+    try:
+        module = ast.parse(line)
+    except SyntaxError:
+        # a block header: give it a body so that it can be parsed on its own
+        try:
+            module = ast.parse(line + "\n    pass")
+        except SyntaxError:
+            return line
+        if len(module.body) != 1:
+            return line
+        try:
+            return ast.unparse(module.body[0]).split("\n", 1)[0]
+        except Exception:  # pragma: no cover - defensive
+            return line
+    if len(module.body) != 1 or hasattr(module.body[0], "body"):
+        return line
+    try:
+        return ast.unparse(module.body[0])
+    except Exception:  # pragma: no cover - defensive
+        return line
+
+
 def _annotation_to_type_label(annotation: Optional[ast.AST]) -> str:
     """Translate a Python annotation node into an internal type label."""
 
@@ -1602,7 +1631,8 @@ def _collect_block(lines: List[str], start: int) -> Tuple[List[str], int]:
     i = start + 1
     block: List[str] = []
     while i < len(lines):
-        if not lines[i].strip():
+        if not lines[i].strip() or lines[i].lstrip().startswith("#"):
+            # blank and comment-only lines never end a block, whatever their column
             block.append(lines[i]); i += 1; continue
         if _indent_of(lines[i]) <= base:
             break
@@ -1631,7 +1661,7 @@ def _collect_if_structure(lines: List[str], start: int) -> Tuple[List[str], int]
     snippet.extend(block)
     while i < len(lines):
         raw = lines[i]
-        text = raw.strip()
+        text = _strip_inline_comment(raw).strip()
         if not text:
             snippet.append(raw)
             i += 1
@@ -1654,7 +1684,7 @@ def _collect_try_structure(lines: List[str], start: int) -> Tuple[List[str], int
     snippet.extend(block)
     while i < len(lines):
         raw = lines[i]
-        text = raw.strip()
+        text = _strip_inline_comment(raw).strip()
         if not text:
             snippet.append(raw)
             i += 1
@@ -2495,6 +2525,7 @@ def _parse_simple_lines(
         if not line or line.startswith('#'):
             i += 1
             continue
+        line = _normalise_line(line)
 
         # ignore imports
         if (
@@ -2746,7 +2777,7 @@ def _parse_simple_lines(
             j = next_idx
             while j < len(snippet):
                 probe_raw = snippet[j]
-                probe_text = probe_raw.strip()
+                probe_text = _strip_inline_comment(probe_raw).strip()
                 if not probe_text:
                     j += 1
                     continue
@@ -2869,7 +2900,7 @@ def _parse_simple_lines(
 
             while j < len(snippet):
                 probe_raw = snippet[j]
-                probe_text = probe_raw.strip()
+                probe_text = _strip_inline_comment(probe_raw).strip()
                 if not probe_text:
                     j += 1
                     continue
@@ -4473,6 +4504,7 @@ def _parse_program(src: str) -> Program:
 
         if not text or text.startswith('#'):
             i += 1; continue
+        text = _normalise_line(text)
 
         # early capture at top level as well
         m = RE_TARGET_CALL.match(text)
